@@ -79,8 +79,8 @@ def numlike(rng, x):
     """A number the way calling code may hold it: float, numpy.float64, or an int when it is whole."""
     import numpy as np
 
-    if x is None or isinstance(x, bool):
-        return x
+    if x is None or isinstance(x, bool) or not isinstance(x, (int, float)) or (isinstance(x, int) and abs(x) >= 2 ** 53):
+        return x            # exact types (big ints, Fractions, ...) are left alone: a float copy is another number
     opts = [x, np.float64(x)]
     if float(x) == int(x) and abs(x) < 2 ** 53:
         opts.append(int(x))
